@@ -220,7 +220,7 @@ func c02Scenario(c *rt.Ctx, fsType string, r *rand.Rand, prog []fsx.Op, exhausti
 
 // c02Dir checks the directory-handle guarantee of the property against the statement itself (os gives no order):
 // every batch has at most n entries (n > 0), the union over batches is the directory content exactly once, then io.EOF.
-func c02Dir(c *rt.Ctx, fsType string, r *rand.Rand) {
+func c02Dir(c *rt.Ctx, fsType string, r *rand.Rand, onlyReturns bool) {
 	v := newBase(fsType)
 	e := fsx.NewEnv(v)
 	_ = v.Mkdir("/d", 0o755)
@@ -242,6 +242,9 @@ func c02Dir(c *rt.Ctx, fsType string, r *rand.Rand) {
 	seen := map[string]int{}
 	var hist []string
 	mixed := r.IntN(3) == 0
+	// in one scenario out of four the directory changes between the batches (entries removed and created): what is
+	// delivered is then unspecified, but every batch call still returns, with names that existed at some point
+	changing := r.IntN(4) == 0 || onlyReturns
 	kind := []string{"F.ReadDir", "F.Readdirnames"}[r.IntN(2)]
 	eofs := 0
 	for step := 0; step < 40 && eofs < 2; step++ {
@@ -252,6 +255,34 @@ func c02Dir(c *rt.Ctx, fsType string, r *rand.Rand) {
 		bn := []int64{1, 2, 3, 8}[r.IntN(4)]
 		rr := e.Exec(fsx.Op{K: k, H: 0, N: bn})
 		hist = append(hist, fmt.Sprintf("%s(%d) -> %s", k, bn, rr))
+		if changing {
+			c.Rep.Case(fmt.Sprintf("%s|dir-handle-changing|entries=%d|%s", fsType, n, rr.Err), true)
+			if fatalRes(rr) {
+				c.Disagree(fmt.Sprintf("%s|dir-handle-changing|%s", fsType, rr.Err), fmt.Sprintf("%s: on a directory handle whose directory shrinks and grows between the batches, %s does not return normally: %s", fsType, hist[len(hist)-1], rr.Raw), map[string]any{"fs": fsType, "history": hist})
+				return
+			}
+			for _, nm := range strings.Fields(strings.Trim(rr.Val, "[]")) {
+				if nm = strings.SplitN(nm, ":", 2)[0]; !want[nm] && !onlyReturns {
+					c.Disagree(fsType+"|dir-handle-changing|unknown-entry", fmt.Sprintf("%s: %s delivers %q which never was in the directory", fsType, hist[len(hist)-1], nm), map[string]any{"fs": fsType, "history": hist})
+					return
+				}
+			}
+			if rr.Err == "eof" {
+				eofs++
+			}
+			for j := 0; j < 1+r.IntN(3); j++ {
+				name := fmt.Sprintf("e%d", r.IntN(n+2))
+				if r.IntN(3) != 0 {
+					_ = v.RemoveAll("/d/" + name)
+					hist = append(hist, "  RemoveAll(/d/"+name+")")
+				} else {
+					_ = v.WriteFile("/d/"+name, []byte("y"), 0o644)
+					want[name] = true
+					hist = append(hist, "  WriteFile(/d/"+name+")")
+				}
+			}
+			continue
+		}
 		if fatalRes(rr) {
 			return
 		}
@@ -362,7 +393,7 @@ func init() {
 		Shards: shards(12, 16),
 		Meta: func(tier string) rt.Meta {
 			return rt.Meta{Level: "exploration", MinEvals: 5000, MinDistinct: 100,
-				Rule:        "differential lockstep against *os.File on tmpfs (chroot): scenarios of one file (0-40 bytes), optionally a second hard link, up to 3 handles opened with independently drawn flag sets (36 sets) and 60 steps of Read/ReadAt/Write/WriteAt/WriteString/Seek/Truncate/Stat/Sync/Chmod/Chown/Close/re-open and path-level Truncate/Rename/Link/Remove/Chmod/WriteFile of the file; offsets, sizes and lengths straddle the current size. After EVERY step the offset and Stat of every open handle and the content/size/mode/owner/nlink of every link are compared. Plus bounded-exhaustive: every sequence of 2 (quick) / 3 (thorough) operations of a reduced set for each flag set. Directory handles are judged against the statement itself. Chdir on handles: handles opened under relative, unclean and symbolic-link names while the current directory moves (24 steps), Getwd compared after every step. Signature = fs | op | handle mode | offset-vs-size class | argument classes | outcome; non-trivial = not the first step.",
+				Rule:        "differential lockstep against *os.File on tmpfs (chroot): scenarios of one file (0-40 bytes), optionally a second hard link, up to 3 handles opened with independently drawn flag sets (36 sets) and 60 steps of Read/ReadAt/Write/WriteAt/WriteString/Seek/Truncate/Stat/Sync/Chmod/Chown/Close/re-open and path-level Truncate/Rename/Link/Remove/Chmod/WriteFile of the file; offsets, sizes and lengths straddle the current size. After EVERY step the offset and Stat of every open handle and the content/size/mode/owner/nlink of every link are compared. Plus bounded-exhaustive: every sequence of 2 (quick) / 3 (thorough) operations of a reduced set for each flag set. Directory handles are judged against the statement itself; in one scenario out of four the directory shrinks and grows between the batches (every batch call must still return, with names that existed). Chdir on handles: handles opened under relative, unclean and symbolic-link names while the current directory moves (24 steps), Getwd compared after every step. Signature = fs | op | handle mode | offset-vs-size class | argument classes | outcome; non-trivial = not the first step.",
 				Assumptions: []string{"Seek whence 3/4 (SEEK_DATA/HOLE) are never generated; error strings, Fd and mtimes are not compared"}}
 		},
 		Timeout: func(tier string) int {
@@ -383,7 +414,7 @@ func init() {
 					}
 					r := c.Rand(fmt.Sprintf("c02-%s-%d", fsType, h))
 					c02Scenario(c, fsType, r, nil, -1)
-					c02Dir(c, fsType, r)
+					c02Dir(c, fsType, r, false)
 					c02Chdir(c, fsType, r)
 				}
 				// bounded-exhaustive short sequences for every flag set
